@@ -18,6 +18,10 @@ for d in sorted(glob.glob(os.path.join(HERE, "seeded", "*"))):
     checks = sorted(set(caught))
     cmd = [sys.executable, os.path.join(HERE, "tools", "ingest_seed.py"), pid, var, "--prop", m["property"], "--checks", ",".join(checks)]
     p = subprocess.run(cmd, capture_output=True, text=True)
+    if p.returncode != 0 or "PATCH FAILED" in p.stdout:
+        print(f"{name:8s} REGRESSION patch no longer applies to /repo (rebase seeded/{name}/patch.diff or mark it obsolete)", flush=True)
+        bad += 1
+        continue
     m2 = json.load(open(os.path.join(d, "meta.json")))
     now = {c: m2["checks"][c]["verdict"] for c in checks}
     ok = m2.get("valid") and all(v == "VIOLATION" for v in now.values())
